@@ -32,6 +32,16 @@ func c01(tier string) {
 		c01Workload(ctx, nSkel, total)
 		ctx.FinishShard()
 	}
+	atomCells := ctx.CountersWithPrefix("atom:")
+	ctx.Extra["atom_kind_polarity_cells_covered"] = len(atomCells)
+	ctx.Extra["atom_kind_polarity_cells_total"] = 2 * len(lib.AtomKinds)
+	for _, k := range lib.AtomKinds {
+		for _, par := range []string{"neg0", "neg1"} {
+			if atomCells[k.Name+"|"+par] == 0 {
+				ctx.Inconclusive(fmt.Sprintf("atomic constraint %s never exercised under polarity %s", k.Name, par))
+			}
+		}
+	}
 	matrix := ctx.CountersWithPrefix("matrix:")
 	ctx.Extra["connective_context_matrix_cells"] = len(matrix)
 	// the matrix must show every connective under both polarities
@@ -133,6 +143,7 @@ func c01Workload(ctx *lib.Ctx, nSkel, total int) {
 				}
 				ctx.Eval(key)
 				ctx.Count("target_nodes_judged", len(c.targets))
+				coverAtoms(ctx, c.w, c.f, 0)
 				lib.CoverFormula(c.f, 0, "top", func(conn string, parity int, parent string) {
 					ctx.Count(fmt.Sprintf("matrix:%s|neg%d|%s", conn, parity, parent), 1)
 				})
@@ -182,4 +193,34 @@ func head(s string, n int) string {
 		lines = lines[:n]
 	}
 	return strings.Join(lines, "\n")
+}
+
+// coverAtoms records (atom kind, polarity) and (quantifier kind/shape, polarity), descending into quantifier bodies.
+func coverAtoms(ctx *lib.Ctx, w *lib.World, f lib.F, parity int) {
+	switch v := f.(type) {
+	case lib.FAtom:
+		ctx.Count(fmt.Sprintf("atom:%s|neg%d", w.Atoms[v.I].Name, parity), 1)
+	case lib.FQuant:
+		q := w.Quants[v.Q]
+		ctx.Count(fmt.Sprintf("quant:%s/%s|neg%d", q.Kind, q.Shape, parity), 1)
+		coverAtoms(ctx, w, q.Inner, 0)
+	case lib.FNot:
+		coverAtoms(ctx, w, v.X, 1-parity)
+	case lib.FAnd:
+		for _, x := range v.Xs {
+			coverAtoms(ctx, w, x, parity)
+		}
+	case lib.FOr:
+		for _, x := range v.Xs {
+			coverAtoms(ctx, w, x, parity)
+		}
+	case lib.FIf:
+		coverAtoms(ctx, w, v.A, 1-parity)
+		coverAtoms(ctx, w, v.B, parity)
+	case lib.FIfElse:
+		coverAtoms(ctx, w, v.A, parity)
+		coverAtoms(ctx, w, v.A, 1-parity)
+		coverAtoms(ctx, w, v.B, parity)
+		coverAtoms(ctx, w, v.C, parity)
+	}
 }
